@@ -18,6 +18,13 @@ func init() {
 			"(R5) spawn requests (posted by Schedule and by dying workers) are consumed only by the spawn loop and each one taken leads to a sizing pass: a request that is taken and dropped leaves accepted jobs without a worker. Not decided: exactly-once execution over all spawn-loop/loader/expiry interleavings (liveness), idle-expiry races, unsynchronised setters.",
 		Trusted: commonTrusted,
 		Run:     runC09,
+		Relies: []Dep{
+			{Prop: "C06", Rule: "*", Floor: 1, Why: "accepted jobs wait in a BufferedChannelQueue whose overflow buffer is a LinkedListQueue: a deque that loses or repeats elements loses or repeats jobs"},
+			{Prop: "C07", Rule: "*", Floor: 1, Why: "accepted jobs wait in a BufferedChannelQueue: its FIFO/no-loss/bound protocol is what 'exactly once' rests on"},
+			{Prop: "C15", Rule: "R1", Keys: []string{"DefaultWorkerPool."}, Floor: 0, Why: "a pool channel that gets closed must not race with the senders on the panic / Schedule paths"},
+			{Prop: "C15", Rule: "R2", Keys: []string{"DefaultWorkerPool."}, Floor: 0, Why: "sends on a pool channel that can be closed: a send on a closed channel in a worker's deferred path kills the process"},
+			{Prop: "C15", Rule: "R3", Keys: []string{"DefaultWorkerPool."}, Floor: 1, Why: "Schedule on a closed pool"},
+		},
 	})
 }
 
